@@ -141,6 +141,10 @@ struct Armed {
     fragment: Vec<u8>,
     t_first: u64,
     t_last: u64,
+    /// `t_first` was taken over from an earlier, byte-identical SELECT that other fragments had disarmed meanwhile: the
+    /// outstation may see a retransmission (the timeout runs from the first one) or a SELECT in its own right (it runs
+    /// from this one) - an OPERATE between the two deadlines is not judged
+    carried: bool,
 }
 
 pub struct Sbo;
@@ -317,6 +321,7 @@ async fn run_case(case: &Case) -> CaseOut {
                             fragment: frag,
                             t_first,
                             t_last: now,
+                            carried: t_first != now,
                         });
                         last_good_select = None;
                     } else {
@@ -329,6 +334,7 @@ async fn run_case(case: &Case) -> CaseOut {
                                 fragment: frag,
                                 t_first: now,
                                 t_last: now,
+                                carried: false,
                             },
                             vec!["select_failed"],
                         ));
@@ -426,8 +432,8 @@ async fn run_case(case: &Case) -> CaseOut {
                         let in_time = el_first < SELECT_TIMEOUT;
                         // the select timeout runs from the SELECT that was executed: a retransmission is answered from
                         // memory (C05) and selects nothing anew, so it cannot keep a selection alive
-                        let _ = el_last;
-                        let unc = el_first == SELECT_TIMEOUT;
+                        let unc = el_first == SELECT_TIMEOUT
+                            || (a.carried && !in_time && el_last <= SELECT_TIMEOUT);
                         let misses: Vec<&'static str> = [
                             (!bytes_ok, "bytes"),
                             (!seq_ok, "seq"),
@@ -672,6 +678,7 @@ async fn run_case(case: &Case) -> CaseOut {
                                 fragment: f.clone(),
                                 t_first,
                                 t_last: now,
+                                carried: t_first != now,
                             });
                             last_good_select = None;
                         }
